@@ -240,6 +240,8 @@ func drawStreamCase(t *rapid.T, forC09 bool) *streamCase {
 		c.Fault = sim.DrawSchedule(t, len(c.Input), interior)
 		c.Fault.FailAt = sim.Intn(t, len(c.Input)+1, "failat")
 		c.Fault.FailSticky = sim.Bool(t, "failsticky")
+		c.Fault.FailKind = sim.Intn(t, len(sim.FailErrors), "failkind")
+		c.Fault.FailData = sim.Bool(t, "failwithdata")
 	}
 	return c
 }
